@@ -159,3 +159,42 @@ pub fn macro_prefix(data: &[u8], use_macros: bool, fnc1_start: bool) -> (Vec<u8>
 pub fn add_padding(codewords: &[u8], ascii_mode: bool, size: SymbolSize) -> Vec<u8> {
     crate::encodation::verif::add_padding(codewords, ascii_mode, size)
 }
+
+/// What `remove_hopeless_cases` sees of a plan.
+#[derive(Debug, Clone, PartialEq)]
+pub struct PlanRecord {
+    /// `start_mode().index()`
+    pub start: usize,
+    /// `current().index()`
+    pub current: usize,
+    /// `cost()` in twelfths of a codeword
+    pub cost: u32,
+    /// `cost_for_switching_to(mode)` by mode index
+    pub switch_cost: [Option<u32>; 6],
+}
+
+std::thread_local! {
+    static PRUNE_LOG: RefCell<Option<Vec<(bool, Vec<PlanRecord>)>>> = RefCell::new(None);
+}
+
+/// Start (`true`) or stop recording the calls of `remove_hopeless_cases` on this thread.
+pub fn prune_log_enable(on: bool) {
+    PRUNE_LOG.with(|l| *l.borrow_mut() = if on { Some(Vec::new()) } else { None });
+}
+
+/// Take the recorded calls: for each call the list after sorting (`false`) and at the end (`true`).
+pub fn prune_log_take() -> Vec<(bool, Vec<PlanRecord>)> {
+    PRUNE_LOG.with(|l| l.borrow_mut().as_mut().map(core::mem::take).unwrap_or_default())
+}
+
+pub(crate) fn prune_log_on() -> bool {
+    PRUNE_LOG.with(|l| l.borrow().is_some())
+}
+
+pub(crate) fn prune_record(end: bool, list: Vec<PlanRecord>) {
+    PRUNE_LOG.with(|l| {
+        if let Some(v) = l.borrow_mut().as_mut() {
+            v.push((end, list));
+        }
+    });
+}
